@@ -437,6 +437,17 @@ def make_float_mesh(tdgl, a):
         dev = tdgl.Device("d", layer=layer, film=film, holes=holes, terminals=terms, length_units="um")
         dev.make_mesh(max_edge_length=a.get("mel", 0.6), smooth=a.get("smooth", 0))
         a["_device"] = dev
+        if a.get("translate"):
+            # the meshed device moved rigidly: in place, or temporarily inside `with device.translation(dx, dy)`
+            dx, dy = a["translate"]
+            if a.get("context"):
+                with dev.translation(dx, dy):
+                    mesh = dev.mesh                  # the mesh the solver would see while translated
+                    if not np.allclose(mesh.sites.mean(axis=0) * a.get("xi", 1.0), np.array([dx, dy]), atol=0.5):
+                        raise core.MachineryFailure("the mesh inside device.translation(...) did not move")
+                a["_device"] = None                  # on leaving the context the device moved back
+                return mesh
+            dev.translate(dx, dy, inplace=True)
         return dev.mesh
     if kind == "polygon":
         # Polygon.make_mesh(min_points, smooth): for smooth >= 1 the submesh comes from Mesh.smooth itself
@@ -797,18 +808,23 @@ FLOAT_MESHES_QUICK = [
     dict(kind="polygon", label="polygon.make_mesh/notch/smooth=2", notch=True, min_points=100, smooth=2, reflex=True),
     dict(kind="smoothed", label="mesh.smooth(3)/delaunay", base=dict(kind="delaunay", seed=0, nb=8, nin=40), n=3),
     dict(kind="smoothed", label="mesh.smooth(1)/meshpy film+hole", base=dict(kind="device", mel=0.6, holes=[(0.3, 0.1, 0.6)]), n=1, reflex=True),
+    # a meshed device with xi != 1 length unit after a rigid translation (in place / inside the context manager)
+    dict(kind="device", label="meshpy/xi=0.5/hole/translate(3,-1.5) in place", xi=0.5, mel=0.5, holes=[(0.3, 0.1, 0.6)], translate=(3.0, -1.5), reflex=True),
+    dict(kind="device", label="meshpy/xi=2/terminals/with translation(-4,2.5)", xi=2.0, mel=1.2, terminals=True, translate=(-4.0, 2.5), context=True),
 ]
-ROUTES = {"device": "Device.make_mesh", "lattice": "Mesh.from_triangulation", "delaunay": "Mesh.from_triangulation",
+ROUTES = {"device": "Device.make_mesh", "translated": "Device.translate(inplace) / device.translation()", "lattice": "Mesh.from_triangulation", "delaunay": "Mesh.from_triangulation",
           "smoothed": "Mesh.smooth(n)"}
 
 
 def route_of(m):
+    if m["kind"] == "device" and m.get("translate"):
+        return ROUTES["translated"]
     if m["kind"] == "polygon":
         return "Polygon.make_mesh(smooth=n)" if m.get("smooth") else "Polygon.make_mesh"
     return ROUTES[m["kind"]]
 
 
-REQUIRED_ROUTES = {"Device.make_mesh", "Polygon.make_mesh", "Polygon.make_mesh(smooth=n)", "Mesh.smooth(n)", "Mesh.from_triangulation"}
+REQUIRED_ROUTES = {ROUTES["translated"], "Device.make_mesh", "Polygon.make_mesh", "Polygon.make_mesh(smooth=n)", "Mesh.smooth(n)", "Mesh.from_triangulation"}
 
 
 def check_float_coverage(traces):
